@@ -626,3 +626,69 @@ Proof.
   revert g Hj. induction ls' as [|l ls' IH]; intros g Hj; cbn [fold_left]; [auto|].
   destruct (after_join_step g l Hj) as [H1 H2]. destruct (IH _ H1) as [H3 H4]. split; [auto|congruence].
 Qed.
+
+(* ---------- a finer preservation lemma: the queue of finished members is consumed in order ---------- *)
+Section JoinerPres2.
+  Variable P : tg -> Prop.
+  Hypothesis P_joiner : forall g p en gr wk mc je unf jd,
+    P g -> (jd = joined g \/ jd = true) -> P (upd_joiner g p en gr wk mc je unf jd (completed g) (consumed g)).
+  Hypothesis P_sem : forall g sv, P g -> P (upd_group g (pending g) (daemons g) (doneq g) sv).
+  Hypothesis P_consume : forall g t rest, doneq g = t :: rest -> P g -> P (consume g t rest).
+  Hypothesis P_cancel : forall g ord, P g -> P (cancel_tasks g ord).
+
+  Lemma j_finally_pres2 g order exc : P g -> P (j_finally g order exc).
+  Proof.
+    intros H. unfold j_finally. cbv zeta.
+    match goal with |- context [match ?x with [] => _ | _ => _ end] => destruct x end.
+    - unfold end_join. apply P_joiner; [|now right]. apply P_joiner; [exact H|now left].
+    - apply (P_joiner (cancel_tasks _ _)); [|now left]. apply P_cancel. apply P_joiner; [exact H|now left].
+  Qed.
+
+  Lemma j_loop_pres2 order dq : forall g, doneq g = dq -> P g -> P (j_loop dq g order).
+  Proof.
+    induction dq as [|x dq IH]; intros g Hd H; cbn [j_loop]; cbv zeta.
+    - match goal with |- context [if ?b then _ else _] => destruct b end; [apply P_joiner; [exact H|now left]|].
+      apply j_finally_pres2. match goal with |- context [if ?b then _ else _] => destruct b end; [apply P_sem|]; exact H.
+    - cbn [negb andb]. destruct (semv g =? 0)%nat; [apply P_joiner; [exact H|now left]|].
+      assert (H1 : P (consume (upd_group g (pending g) (daemons g) (doneq g) (semv g - 1)) x dq))
+        by (apply P_consume; [exact Hd|apply P_sem; exact H]).
+      match goal with |- P (if ?b then _ else _) => destruct b end; [apply j_finally_pres2|apply IH; [reflexivity|]]; exact H1.
+  Qed.
+
+  Lemma join_entry_pres2 g order : P g -> P (join_entry g order).
+  Proof.
+    intros H. unfold join_entry. cbv zeta. cbn [pol upd_joiner].
+    assert (H0 : P (upd_joiner g (pc g) true (granted g) (wake g) (must_cancel g) false (unfinished g) (joined g)
+                               (completed g) (consumed g))) by (apply P_joiner; [exact H|now left]).
+    destruct (pol g); [apply j_loop_pres2|apply j_loop_pres2|apply j_loop_pres2|apply j_finally_pres2]; auto.
+  Qed.
+
+  Lemma joiner_step_pres2 g order : P g -> P (joiner_step g order).
+  Proof.
+    intros H. unfold joiner_step. cbv zeta.
+    set (g0 := upd_joiner g (pc g) (entered g) (granted g) None false (jexc g) (unfinished g) (joined g)
+                          (completed g) (consumed g)).
+    assert (H0 : P g0) by (apply P_joiner; [exact H|now left]).
+    destruct (pc g0).
+    - match goal with |- context [if ?b then _ else _] => destruct b end; [apply P_joiner; [exact H0|now left]|].
+      destruct (mode g0); try (apply join_entry_pres2; exact H0).
+      match goal with |- context [match ?x with [] => _ | _ => _ end] => destruct x end; [apply join_entry_pres2; exact H0|].
+      apply (P_joiner (cancel_tasks _ _)); [|now left]. apply P_cancel; exact H0.
+    - match goal with |- context [if ?b then _ else _] => destruct b end.
+      + apply j_finally_pres2.
+        match goal with |- P (upd_joiner ?G _ _ _ _ _ _ _ _ _ _) => apply (P_joiner G); [|now left] end.
+        destruct (granted g0); [apply P_sem|]; exact H0.
+      + match goal with |- context [match ?x with [] => _ | _ => _ end] => destruct x eqn:Ed end.
+        * apply j_finally_pres2. apply P_joiner; [exact H0|now left].
+        * rewrite <- Ed. apply j_loop_pres2; [reflexivity|].
+          match goal with |- P (upd_group ?G _ _ _ _) => apply (P_sem G) end.
+          apply P_joiner; [exact H0|now left].
+    - match goal with |- context [if ?b then _ else _] => destruct b end;
+        [apply P_joiner; [exact H0|now left]|apply join_entry_pres2; exact H0].
+    - match goal with |- context [if ?b then _ else _] => destruct b end; [apply P_joiner; [exact H0|now left]|].
+      match goal with |- context [match ?x with [] => _ | _ => _ end] => destruct x end.
+      + unfold end_join. apply P_joiner; [exact H0|now right].
+      + apply (P_joiner (cancel_tasks _ _)); [|now left]. apply P_cancel; exact H0.
+    - exact H0.
+  Qed.
+End JoinerPres2.
